@@ -35,6 +35,9 @@ def obligations(ctx: Ctx):
     for n in range(0, 5):
         obs.append(contract_ob(f"{P}.P14.n{n}", f"detect_conflicts non-empty iff conflict(chain), {n} members", (lambda n=n: CC.detect_conflicts_contract(n)), f"contracts.constraints:detect_conflicts_contract({n})", thorough_only=(n >= 4)))
         obs.append(contract_ob(f"{P}.P15.n{n}", f"chain.evaluate valid iff no conflict and every member accepts, {n} members", (lambda n=n: CC.chain_evaluate_contract(n)), f"contracts.constraints:chain_evaluate_contract({n})", thorough_only=(n >= 4)))
+    from contracts import validator_doc as VD
+
+    obs.append(contract_ob(f"{P}.P16", "document level: one iteration of the present-fields loop of Validator._validate_section records an Assignment child under its key whatever its value (null, false, empty included)", (lambda: VD.PRESENT_FIELDS_STEP), "contracts.validator_doc:PRESENT_FIELDS_STEP"))
     obs.append(Ob(f"{P}.B1", "B", "chain texts x values through the real parse+evaluate against an independent reference", ["octave_mcp.core.constraints:ConstraintChain.parse", "octave_mcp.core.constraints:ConstraintChain.evaluate"], C08_b.ob_chains, timeout=3000))
     obs.append(Ob(f"{P}.B2", "B", "schema documents x instance documents through the real parser, extractor and Validator", ["octave_mcp.core.validator:Validator.validate", "octave_mcp.core.schema_extractor:extract_schema_from_document"], C08_b.ob_docs, timeout=3000))
     return obs
